@@ -57,7 +57,18 @@ class ModProfile:
         rnd.shuffle(order)
         deps = {m: [] for m in nodes}
         shape = rnd.choice(["random", "random", "chain", "diamond", "fork", "dense"])
-        if shape == "chain":
+        if rnd.random() < 0.04:
+            # a hub: one module that depends on every other one (as many dependencies as there are modules)
+            shape = "hub"
+            n = rnd.choice([9, 10, 10])
+            nodes = NAMES[:n]
+            order = nodes[:]
+            rnd.shuffle(order)
+            deps = {m: [] for m in nodes}
+            deps[order[0]] = order[1:]
+        if shape == "hub":
+            pass
+        elif shape == "chain":
             for a, b in zip(order, order[1:]):
                 deps[a].append(b)
         elif shape == "diamond" and n >= 4:
@@ -110,7 +121,7 @@ class ModProfile:
         plan = {"profile": "modules", "nodes": nodes, "deps": deps, "listed": listed, "fault": fault, "shape": shape, "cyc": cyc, "bulk": bulk,
                 "variant": variant,
                 # modules that declare all their dependencies in one module_depends() call
-                "onecall": sorted(m for m in nodes if 2 <= len(deps[m]) <= 6 and rnd.random() < 0.5),
+                "onecall": sorted(m for m in nodes if 2 <= len(deps[m]) <= 12 and rnd.random() < 0.5),
                 "stop": rnd.choice(["HUP", "HUP", "EOFLESS"])}
         return plan, self.run(plan, tag)
 
